@@ -118,7 +118,47 @@ func isInputLen(v ssa.Value) bool {
 // carrying the taint source `src` (or structurally equal to size) from above
 // by an expression over the remaining input length.
 func boundedByInput(t *Taint, at ssa.Instruction, size ssa.Value, src ssa.Value) (string, bool) {
-	for _, g := range guardsAt(at) {
+	carriesV := func(v ssa.Value) bool {
+		if v == size || sameValue(v, size) {
+			return true
+		}
+		s, ok := t.Of(v)
+		return ok && s == src
+	}
+	gs := guardsAt(at)
+	via := map[ssa.Value]string{}
+	// a dominating `helper(count, …) returned a nil error` contributes the
+	// conditions that hold on every nil-error return of the helper, provided the
+	// helper's parameters occurring in them receive the count at this call
+	for _, g := range gs {
+		call := nilErrorCall(g)
+		if call == nil {
+			continue
+		}
+		cal := staticCallee(call)
+		if cal == nil || cal.Blocks == nil {
+			continue
+		}
+		for _, hg := range nilReturnGuards(cal) {
+			okArgs := true
+			operandTreeAny(hg.Cond, func(v ssa.Value) bool {
+				if par, isPar := v.(*ssa.Parameter); isPar {
+					if _, tainted := t.Of(par); tainted {
+						idx := paramIndex(cal, par)
+						if idx < 0 || idx >= len(call.Call.Args) || !operandTreeAny(call.Call.Args[idx], carriesV) {
+							okArgs = false
+						}
+					}
+				}
+				return false
+			})
+			if okArgs {
+				gs = append(gs, hg)
+				via[hg.Cond] = " (established by " + FuncName(cal) + " returning a nil error)"
+			}
+		}
+	}
+	for _, g := range gs {
 		bo, ok := g.Cond.(*ssa.BinOp)
 		if !ok {
 			continue
@@ -155,7 +195,7 @@ func boundedByInput(t *Taint, at ssa.Instruction, size ssa.Value, src ssa.Value)
 		bigTainted := operandTreeAny(big, func(v ssa.Value) bool { _, ok := t.Of(v); return ok && !isInputLen(v) })
 		if hasLen && !bigTainted {
 			s, _ := accessPath(g.Cond)
-			return fmt.Sprintf("dominating guard %s is %v", s, g.Truth), true
+			return fmt.Sprintf("dominating guard %s is %v%s", s, g.Truth, via[g.Cond]), true
 		}
 	}
 	return "", false
@@ -230,25 +270,26 @@ func runC08Alloc(c *Ctx) {
 				return
 			}
 			// parameter-sized: accept when every call site bounds the argument
-			if par, ok := size.(*ssa.Parameter); ok {
+			if pars := sizeParams(size); len(pars) > 0 {
 				all := len(t.callers[f]) > 0
 				for _, call := range t.callers[f] {
-					idx := -1
-					for i, pp := range f.Params {
-						if pp == par {
-							idx = i
+					for _, par := range pars {
+						idx := paramIndex(f, par)
+						if idx < 0 || idx >= len(call.Common().Args) {
+							all = false
+							continue
 						}
-					}
-					arg := call.Common().Args[idx]
-					if _, tainted := t.Of(arg); !tainted {
-						continue
-					}
-					if _, ok := boundedByInput(t, call, arg, src); !ok {
-						all = false
+						arg := call.Common().Args[idx]
+						if _, tainted := t.Of(arg); !tainted {
+							continue
+						}
+						if _, ok := boundedByInput(t, call, arg, src); !ok {
+							all = false
+						}
 					}
 				}
 				if all {
-					c.OK(in.Pos(), fn, construct, "every call site passing an input-derived count bounds it by the input length first")
+					c.OK(in.Pos(), fn, construct, "the size is a function of the parameters only, and every call site passing an input-derived count bounds it by the input length first")
 					return
 				}
 			}
@@ -270,4 +311,121 @@ func describeSource(src ssa.Value) string {
 		return calleeName(x)
 	}
 	return src.Name()
+}
+
+// sizeParams: the parameters a size expression is computed from, when it is a
+// function of parameters and constants only (arithmetic, conversions, len of a
+// slice made with such a size); nil otherwise.
+func sizeParams(size ssa.Value) []*ssa.Parameter {
+	var out []*ssa.Parameter
+	ok := true
+	seen := map[ssa.Value]bool{}
+	var rec func(v ssa.Value, d int)
+	rec = func(v ssa.Value, d int) {
+		if !ok || seen[v] {
+			return
+		}
+		seen[v] = true
+		if d > 10 {
+			ok = false
+			return
+		}
+		switch x := v.(type) {
+		case *ssa.Const:
+		case *ssa.Parameter:
+			out = append(out, x)
+		case *ssa.Convert:
+			rec(x.X, d+1)
+		case *ssa.ChangeType:
+			rec(x.X, d+1)
+		case *ssa.BinOp:
+			rec(x.X, d+1)
+			rec(x.Y, d+1)
+		case *ssa.MakeSlice:
+			rec(x.Len, d+1)
+		case *ssa.Call:
+			if b, isB := x.Call.Value.(*ssa.Builtin); isB && b.Name() == "len" {
+				rec(x.Call.Args[0], d+1)
+			} else {
+				ok = false
+			}
+		default:
+			ok = false
+		}
+	}
+	rec(size, 0)
+	if !ok {
+		return nil
+	}
+	return out
+}
+
+// nilErrorCall: the guard says that the error result of a static call is nil;
+// returns that call.
+func nilErrorCall(g Guard) *ssa.Call {
+	bo, ok := g.Cond.(*ssa.BinOp)
+	if !ok {
+		return nil
+	}
+	var e ssa.Value
+	switch {
+	case isNilConst(bo.Y):
+		e = bo.X
+	case isNilConst(bo.X):
+		e = bo.Y
+	default:
+		return nil
+	}
+	if !((bo.Op == token.NEQ && !g.Truth) || (bo.Op == token.EQL && g.Truth)) {
+		return nil
+	}
+	if !isErrorType(e.Type()) {
+		return nil
+	}
+	switch x := e.(type) {
+	case *ssa.Call:
+		return x
+	case *ssa.Extract:
+		if c, ok := x.Tuple.(*ssa.Call); ok {
+			return c
+		}
+	}
+	return nil
+}
+
+// nilReturnGuards: the branch conditions that hold at every return of f whose
+// error result is the nil constant (f returns a nil error only when they hold).
+func nilReturnGuards(f *ssa.Function) []Guard {
+	var common []Guard
+	first := true
+	for _, r := range returnsOf(f) {
+		if len(r.Results) == 0 {
+			return nil
+		}
+		e := r.Results[len(r.Results)-1]
+		if !isErrorType(e.Type()) {
+			return nil
+		}
+		if !isNilConst(e) {
+			if provablyNonNilErr(r) {
+				continue
+			}
+			return nil // may be nil on a path we know nothing about
+		}
+		gs := guardsAt(r)
+		if first {
+			common, first = gs, false
+			continue
+		}
+		var keep []Guard
+		for _, a := range common {
+			for _, b := range gs {
+				if a.Cond == b.Cond && a.Truth == b.Truth {
+					keep = append(keep, a)
+				}
+			}
+		}
+		common = keep
+	}
+	return common
 }
